@@ -155,8 +155,10 @@ def main():
                     r['killed_by_tests'] = tp.returncode != 0
                     fails = []
                     for pp in props:
+                        if fails:           # one kill is enough to classify the mutant
+                            break
                         try:
-                            op = subprocess.run(['/venv/bin/python', os.path.join(VERIF, 'oracle', 'run.py'), pp, '--repo', S, '--out', os.path.join(S, 'replays')], capture_output=True, text=True, timeout=300)
+                            op = subprocess.run(['/venv/bin/python', os.path.join(VERIF, 'oracle', 'run.py'), pp, '--repo', S, '--out', os.path.join(S, 'replays')], capture_output=True, text=True, timeout=150)
                             d = json.loads(op.stdout.strip().splitlines()[-1])
                             if d.get('failures') or d.get('error'):
                                 fails.append(pp + ': ' + (d['failures'][0]['clause'] if d.get('failures') else 'error ' + str(d.get('error'))[:80]))
